@@ -76,9 +76,13 @@ def _shortcut_guard(rep, ex: Explorer, mode):
             flagged = True
     if flagged:
         return len(paths)
+    mode_branch = False
     for p in paths:
         lits, other = sat_literals(p)
         other = [(k, v) for k, v in other if k[0] != "delegate-outcome"]
+        if mode is None and any(k == ("truthy", "weakly") for k, v in other):
+            mode_branch = True
+            continue  # (a branch on the mode itself: each mode is judged by its own run, with the flag a constant)
         g = ("and", tuple(lits))
         dele = [ev for ev, Q in iter_events(p.events) if ev.kind == "delegate"]
         if p.outcome[0] == "raise":
@@ -112,6 +116,8 @@ def _shortcut_guard(rep, ex: Explorer, mode):
             else:
                 rep.violation("SHORTCUT.guard", site, "shortcut answer", "a path that does not consult the operator returns something other than True",
                               extracted=repr(rv), required="True", function=site)
+    if mode_branch:
+        return len(paths)
     got = ("or", tuple(true_guards)) if true_guards else ("const", False)
     want = ("not", ("sat", falsification(QUERY)))
     okg, wit = F.guard_equiv(got, want)
@@ -721,9 +727,15 @@ def _rows(rep, ex: Explorer, which=("single", "worker", "multi", "manager")):
 
         paths = ex.run(qual, setup, summaries=SUMMARIES, key="single")
         n_rows = 0
+        res_oids = {p.outcome[1].oid for p in paths if p.outcome[0] == "return" and isinstance(p.outcome[1], Ref)}
         for p in paths:
+            # rows are what is stored into the mapping the call hands back; anything else a round stores (a memo in the state)
+            # is judged on its own: the outcome of an expired query must not be kept where a later call finds it
+            def is_row(e_):
+                return e_.kind == "dict.set" and (not res_oids or (isinstance(e_.obj, Ref) and e_.obj.oid in res_oids))
+
             for ev, Q in iter_events(p.events):
-                if ev.kind == "dict.set" and Q:
+                if is_row(ev) and Q:
                     loop_ev, case = Q[-1]
                     evar = loop_ev.evar
                     n_rows += 1
@@ -732,8 +744,16 @@ def _rows(rep, ex: Explorer, which=("single", "worker", "multi", "manager")):
                     for case in ev.cases:
                         _check_query_call(rep, site, list(iter_events(case.events)), ev.evar, True)
                         if case.sig[0] == "next":
+                            others = [e2 for e2, Q2 in iter_events(case.events) if e2.kind == "dict.set" and not Q2 and not is_row(e2)]
+                            flagged_row = any(is_row(e2) and isinstance(e2.value, TupleV) and len(e2.value.items) == 4 and e2.value.items[2] == Const(True) for e2, Q2 in iter_events(case.events) if not Q2)
+                            for e2 in others:
+                                v2 = e2.value
+                                keeps_flag = isinstance(v2, TupleV) and any(x == Const(True) for x in v2.items)
+                                if flagged_row and keeps_flag:
+                                    rep.violation("TIMEOUT.row", f"{site}:{getattr(e2.node, 'lineno', '?')}", "an expiry is not remembered", "the outcome of a query whose budget ran out is not kept in state that outlives the call (a later call with a larger budget would get the flagged row again)",
+                                                  extracted=f"{v2!r} stored under {e2.key!r}"[:200], required="nothing kept of an expired query", function=site)
                             # every query the loop goes on from (answered or expired) has left exactly one row
-                            stored = [e2 for e2, Q2 in iter_events(case.events) if e2.kind == "dict.set" and not Q2]
+                            stored = [e2 for e2, Q2 in iter_events(case.events) if is_row(e2) and not Q2]
                             how = "; ".join(show_pred(k if v else ("not", k))[:60] for k, v in case.guard) or "always"
                             rep.check(len(stored) == 1, "ROWS.key", site, f"a row for every query ({how[:80]})", "whatever happens to a query (answered, expired), the loop stores one row for it before it goes on",
                                       extracted=f"{len(stored)} row(s) stored", required="1", function=site)
@@ -873,6 +893,9 @@ def _check_row(rep, site, ev, case, evar, what):
 
 def _check_tuple(rep, site, ev, outcome, evar, case=None):
     val = ev.value
+    if isinstance(val, Sym) and isinstance(val.label, tuple) and val.label[:1] == ("tuple-with-unknown-part",):
+        # (a row read back from a store the path knows nothing of: what it holds is decided where it is stored)
+        raise AnalysisError(f"{site}:{ev.node.lineno}: a row is built from a stored value of unknown shape ({val!r})"[:300])
     if not (isinstance(val, TupleV) and len(val.items) == 4):
         rep.violation("TIMEOUT.row", f"{site}:{ev.node.lineno}", "row shape", "result row is not (key, answer, timed_out, time)", extracted=repr(val), required="4-tuple", function=site)
         return
@@ -971,6 +994,14 @@ def _multi(rep, ex: Explorer, stats):
                     rep.check("mp.join" in seq, "PAR.join", site, "worker joined", "every started process is joined", extracted=" ".join(seq), required="start join", function=site)
                     rep.check("mp.terminate" not in seq, "PAR.key", site, "finished worker's row kept", "only a worker that is still alive after the timed join is terminated and reported as timed out; the row of a finished worker is not overwritten",
                               extracted=" ".join(seq) + (" (liveness never tested)" if k not in alive else ""), required="no terminate", function=site)
+            # the manager process that hosts the shared mapping is a child process as well: whoever starts it shuts it down
+            # before the call returns (left by `with`, or shutdown())
+            for ev in evs:
+                if ev.kind == "mp.manager" and isinstance(ev.obj, Ref):
+                    closed = any((e2.kind == "ctx.exit" and isinstance(e2.obj, Ref) and e2.obj.oid == ev.obj.oid) or
+                                 (e2.kind == "opaque.call" and isinstance(e2.obj, Ref) and e2.obj.oid == ev.obj.oid and e2.method in ("shutdown", "__exit__")) for e2 in evs)
+                    rep.check(closed, "PAR.join", f"{site}:{getattr(ev.node, 'lineno', '?')}", "manager process shut down", "the manager process started for the shared mapping is shut down before the call returns (no child process is left behind)",
+                              extracted="shut down" if closed else "started and never shut down on this path", required="with mp.Manager() ... / shutdown()", function=site)
             # the returned mapping
             rv = p.outcome[1]
             rd = p.state.heap.get(rv.oid) if isinstance(rv, Ref) else None
